@@ -173,11 +173,15 @@ func (g *G) Text() []byte {
 	return append([]byte{}, s...)
 }
 
-var langTags = []ap.LangRef{ap.NilLangRef, "en", "fr", "de", "ro"}
+var langTags = []ap.LangRef{ap.NilLangRef, "en", "fr", "de", "ro", "es", "it", "pt-BR", "nl", "ja", "zh-Hans", "ar", "ru", "pl", "sv", "fi", "el"}
 
-// NLV returns 0..3 entries with pairwise distinct tags.
+// NLV returns 0..3 (1 time in 24: 9..16) entries with pairwise distinct tags.
 func (g *G) NLV(min int) ap.NaturalLanguageValues {
 	n := min + g.T.Draw(4-min)
+	if g.T.Bool(1, 24) {
+		// a text translated into many languages (a project's description, a release note): 9..16 entries
+		n = 9 + g.T.Draw(8)
+	}
 	if n == 0 {
 		return nil
 	}
